@@ -353,7 +353,17 @@ def concretize(r):
         files[os.path.join(d, 'exactly.suite')] = '[cases]\n\n[setup]\n$ false\n[assert]\n$ false\n'
     if way == 'plain':      # no suite at all
         files = {p: t for p, t in files.items() if not p.endswith('.suite')}
-    return dict(files=files, argv=argv, cases={str(n): p for n, p in cpath.items()})
+    links = {}
+    if way != 'suite' and zlib.crc32(run_key(r).encode()) % 3 == 0:
+        # the case file named on the command line is a symbolic link to a file in another directory: the case is the
+        # file WHERE IT IS NAMED - its default home directory and the exactly.suite beside it are those of the link.
+        # Beside the file the link points to there is a decoy exactly.suite (and no file of a home directory).
+        p = cpath[r['tgt']]
+        real = 'elsewhere/real-%d.case' % r['tgt']
+        files[real] = files.pop(p)
+        links[p] = os.path.relpath(real, os.path.dirname(p) or '.')
+        files['elsewhere/exactly.suite'] = '[cases]\n\n[setup]\n$ false\n[assert]\n$ false\n'
+    return dict(files=files, argv=argv, cases={str(n): p for n, p in cpath.items()}, links=links)
 
 
 # ======================================================================================== execution (workers)
@@ -366,6 +376,13 @@ def _physical_tmp(cd):
     return real
 
 
+def _make_links(task, cd):
+    for link, target in (task.get('links') or {}).items():
+        lp = os.path.join(cd.home, link)
+        os.makedirs(os.path.dirname(lp), exist_ok=True)
+        os.symlink(target, lp)
+
+
 def exec_run(task, cd):
     from harness import inproc
     log = os.path.join(cd.out, 'log')
@@ -376,6 +393,7 @@ def exec_run(task, cd):
     cd.write({p: fill(t) for p, t in HELPERS.items()}, mode={'actprobe': 0o755})
     cd.write({p: fill(t) for p, t in task['files'].items()},
              mode={p: 0o755 for p in task['files'] if p.endswith('here.sh')})
+    _make_links(task, cd)
     # the environment the program is started in: B is set, the other names the cases use are not
     for n in ('A', 'K_E', 'K_V', 'X'):
         os.environ.pop(n, None)
@@ -404,6 +422,7 @@ def exec_subprocess(task, cd):
     cd.write({p: fill(t) for p, t in HELPERS.items()}, mode={'actprobe': 0o755})
     cd.write({p: fill(t) for p, t in task['files'].items()},
              mode={p: 0o755 for p in task['files'] if p.endswith('here.sh')})
+    _make_links(task, cd)
     env = dict(os.environ, PYTHONPATH=os.path.join(runner.REPO, 'src'), TMPDIR=tmp, PYTHONWARNINGS='ignore', B='b0')
     for n in ('A', 'K_E', 'K_V', 'X', 'EXACTLY_VERIF_TRACE'):
         env.pop(n, None)
